@@ -1320,6 +1320,10 @@ macro_rules! iter_sub_expr {
                         }
                     }
                     Expression::LitArr { fields, .. } => {
+                        // empty slots contain no sub-expression: skip them
+                        while let Some(ArrayFieldKind::EmptySlot) = fields.get(self.index) {
+                            self.index += 1;
+                        }
                         let x = fields.$get(self.index)?;
                         self.index += 1;
                         match x {
